@@ -7,7 +7,7 @@ PROP = 'C03'
 
 def make(rd, tier, seed, ev):
     fam = gen_problems.causal_family()
-    gen = plancheck.write_problems(rd, [(n, t) for n, t, ok in fam]) + plancheck.feature_problems(rd, ['causal', 'inheritance'], seed, tier)[0]
+    gen = plancheck.write_problems(rd, [(n, t) for n, t, ok in fam]) + plancheck.feature_problems(rd, ['causal', 'inheritance', 'multisuper'], seed, tier)[0]
     repo = plancheck.repo_problems()
     if tier == 'quick':
         repo = [p for p in repo if not p[0].startswith(('GOAC', 'Matera'))] + [p for p in repo if p[0] in ('GOAC_2Pic_2Wind', 'GOAC_3Pic_1Wind', 'Matera_05')]
@@ -19,7 +19,7 @@ def run(tier, seed):
     return plancheck.run_plan(PROP, tier, seed,
         rule='the repository examples (blocks, logistics, GOAC, telepresence use unification heavily) and generated families '
              'with recursive rules whose sub-goal can unify with a fact, an ancestor or a sibling, mutual recursion, shared '
-             'supports and disjunctions, plus seeded mutual-recursion problems (tools/gen_features.py: 1-3 predicate pairs P_i -> Q_i -> P_j | guarded base case, 2-3 goals over shared variables, priced top-level disjunctions that kill or allow the base cases); flaws, resolvers and causal links are read through the solver_listener API; in every '
+             'supports and disjunctions, plus seeded mutual-recursion problems (tools/gen_features.py: 1-3 predicate pairs P_i -> Q_i -> P_j | guarded base case, 2-3 goals over shared variables, priced top-level disjunctions that kill or allow the base cases) and predicates with two or three argument-carrying super-predicates whose atoms are separated on an inherited argument; flaws, resolvers and causal links are read through the solver_listener API; in every '
              'reported solution each atom flaw of the plan has exactly one chosen resolver, activation makes the atom active and '
              'puts what its rule introduced into the plan, unification is with an active atom of the same predicate whose '
              'non-synthetic arguments have equal reported values, and no unified atom is reachable from its own target in the '
